@@ -40,21 +40,38 @@ static void slot_poison(int i) {
     else if (slotlen[i] < SLOTSZ) { ASAN_POISON_MEMORY_REGION(s + slotlen[i], SLOTSZ - slotlen[i]); }
 }
 
-char * __wrap_strndup(const char * s, size_t n);
-char * __wrap_strndup(const char * s, size_t n) {
-    size_t len = strnlen(s, n);
+/* a block of `size` bytes from the slot arena (NULL when the harness injects an allocation failure) */
+static char * arena_alloc(size_t size) {
     int i;
-    if (!in_lib_call) return __real_strndup(s, n);
     if (fail_next) { fail_next = 0; n_failed++; return NULL; }
     for (i = 0; i < NSLOT; i++) if (!live[i]) break;
-    if (i == NSLOT || len + 1 > SLOTSZ) { mcx_viol("c10/harness-arena-exhausted", "no free slot"); return NULL; }
-    live[i] = 1; slotlen[i] = (unsigned short) (len + 1);
+    if (i == NSLOT || size > SLOTSZ || size == 0) { mcx_viol("c10/harness-arena-exhausted", "no free slot"); return NULL; }
+    live[i] = 1; slotlen[i] = (unsigned short) size;
     ASAN_UNPOISON_MEMORY_REGION(arena + (size_t) i * SLOTSZ, SLOTSZ);
-    memcpy(arena + (size_t) i * SLOTSZ, s, len);
-    arena[(size_t) i * SLOTSZ + len] = 0;
+    memset(arena + (size_t) i * SLOTSZ, 0xA5, size);
     slot_poison(i);
     n_alloc++;
     return arena + (size_t) i * SLOTSZ;
+}
+
+char * __wrap_strndup(const char * s, size_t n);
+char * __wrap_strndup(const char * s, size_t n) {
+    size_t len = strnlen(s, n);
+    char * d;
+    if (!in_lib_call) return __real_strndup(s, n);
+    d = arena_alloc(len + 1);
+    if (!d) return NULL;
+    memcpy(d, s, len);
+    d[len] = 0;
+    return d;
+}
+
+/* strict ISO builds (configuration c90): the library duplicates texts with its own OUR_strndup, which calls malloc */
+extern void * __real_malloc(size_t n);
+void * __wrap_malloc(size_t n);
+void * __wrap_malloc(size_t n) {
+    if (!in_lib_call) return __real_malloc(n);
+    return arena_alloc(n);
 }
 
 void __wrap_free(void * p);
@@ -250,12 +267,11 @@ static void check_ledger(void) {
 /* <code>,"<description>[;<text>]" with doubled quotes; the quoted content is limited to 255 characters
  * (SCPI-99 21.8; the exact placement of that cut is the subject of C18, here texts stay clear of it except
  * for the long text, which has no quote near the cut) */
-static void expect_response(char * buf, size_t n, ment_t e) {
-    const char * t = mtext(e.text);
+static void expect_response_text(char * buf, size_t n, int code, const char * t) {
     char content[700];
     size_t o, i, used = 0, cl;
-    cl = (size_t) snprintf(content, sizeof content, "%s%s%s", SCPI_ErrorTranslate(e.code), (INFO && t) ? ";" : "", (INFO && t) ? t : "");
-    o = (size_t) snprintf(buf, n, "%d,\"", e.code);
+    cl = (size_t) snprintf(content, sizeof content, "%s%s%s", SCPI_ErrorTranslate((int16_t) code), (INFO && t) ? ";" : "", (INFO && t) ? t : "");
+    o = (size_t) snprintf(buf, n, "%d,\"", code);
     for (i = 0; i < cl && o + 4 < n; i++) {
         size_t cost = content[i] == '"' ? 2 : 1;
         if (used + cost > 255) break;
@@ -263,6 +279,50 @@ static void expect_response(char * buf, size_t n, ment_t e) {
         used += cost;
     }
     buf[o++] = '"'; buf[o] = 0;
+}
+static void expect_response(char * buf, size_t n, ment_t e) { expect_response_text(buf, n, e.code, mtext(e.text)); }
+
+/* texts that end at and around the 255-character limit of the response, with quotes at the first place and at up to two of
+ * the last six places: pushed (automatic and explicit length), then read back by pop and by SYST:ERR? */
+static unsigned long long n_limit = 0;
+static void limit_sweep(void) {
+    static const int codes[] = {-100, -101, -350, -213, 77};
+    int ci, T, q1, q2, first, mode;
+    for (ci = 0; ci < 5; ci++) for (T = 249; T <= 259; T++) for (first = 0; first < 2; first++) for (q1 = -1; q1 < 6; q1++) for (q2 = q1; q2 < 6; q2++) for (mode = 0; mode < 3; mode++) {
+        char text[320], exp[700], one[700];
+        int dl = (int) strlen(SCPI_ErrorTranslate((int16_t) codes[ci])), tl = T - dl - 1, i;
+        if (q1 < 0 && q2 != q1) continue;
+        if (tl < 8) continue;
+        for (i = 0; i < tl; i++) text[i] = (char) ('a' + i % 26);
+        text[tl] = 0;
+        if (first) text[0] = '"';
+        if (q1 >= 0) text[tl - 1 - q1] = '"';
+        if (q2 >= 0) text[tl - 1 - q2] = '"';
+        outn = 0; outbuf[0] = 0;
+        in_lib_call = 1;
+        SCPI_ErrorClear(&ctx);
+        if (mode == 2) { char * src = (char *) __real_malloc((size_t) tl); memcpy(src, text, (size_t) tl); SCPI_ErrorPushEx(&ctx, (int16_t) codes[ci], src, (size_t) tl); __real_free(src); }   /* explicit length, unterminated source */
+        else SCPI_ErrorPushEx(&ctx, (int16_t) codes[ci], text, 0);
+        n_limit++;
+        if (mode == 2 ? 0 : tl > 255) text[255] = 0;          /* automatic length stops at 255 characters */
+        if (mode == 0) {
+            scpi_error_t e;
+            SCPI_ErrorPop(&ctx, &e);
+            if (e.error_code != codes[ci]) mcx_viol("c10/pop-order", "pop returned code %d, pushed %d", e.error_code, codes[ci]);
+#if INFO
+            if (!e.device_dependent_info) mcx_viol("c10/pop-text-missing", "pop of code %d: text of %d characters absent", e.error_code, tl);
+            else if (strcmp(e.device_dependent_info, text)) mcx_viol("c10/pop-text-modified", "pop of code %d returned text '%s', pushed '%s'", e.error_code, mc_es(e.device_dependent_info), mc_es(text));
+            free(e.device_dependent_info);
+#endif
+        } else {
+            SCPI_Input(&ctx, "SYST:ERR?\n", 10);
+            expect_response_text(one, sizeof one, codes[ci], text); snprintf(exp, sizeof exp, "%s\r\n", one);
+            if (strcmp(exp, outbuf)) mcx_viol("c10/query-response", "text of %d characters (quotes at first=%d, last-%d, last-%d) behind code %d answered [%s], model expects [%s]", tl, first, q1, q2, codes[ci], mc_es(outbuf), mc_es(exp));
+        }
+        in_lib_call = 0;
+        if (SCPI_ErrorCount(&ctx) != 0) mcx_viol("c10/count", "SCPI_ErrorCount = %d after the only entry was read", (int) SCPI_ErrorCount(&ctx));
+        check_ledger();
+    }
 }
 
 static int apply(int op) {
@@ -350,6 +410,7 @@ int main(int argc, char ** argv) {
         mc_sample("capacity=%d config=%s ops=%d states=%llu transitions=%llu depth=%d fixpoint=%d; deepest history: %s", cap, MC_CFG_NAME, nops, m.states, m.transitions, m.depth_reached, m.fixpoint, mcx_tracebuf);
         { size_t i; for (i = 0; i < m.states; i++) mc_outcome(mc_hash(m.keys + i * sizeof (qkey_t), sizeof (qkey_t), (uint64_t) cap)); }
         mcx_free(&m);
+        if (c == 2) { mcount = 0; memset(model, 0, sizeof model); SCPI_ErrorClear(&ctx); limit_sweep(); }
         { int i; for (i = 0; i < NSLOT; i++) { live[i] = 0; } }
         ASAN_UNPOISON_MEMORY_REGION(arena, NSLOT * SLOTSZ);
         __real_free(ering);
@@ -362,6 +423,7 @@ int main(int argc, char ** argv) {
     mc_stat("overflows", n_overflow);
     mc_stat("queries_compared", n_queries);
     mc_stat("ledger_checks", n_ledger);
+    mc_stat("limit_sweep_texts", n_limit);
     mc_stat("allocations", n_alloc);
     mc_stat("frees", n_free);
     mc_stat("injected_alloc_failures", n_failed);
